@@ -123,7 +123,7 @@ def _mk_codecs():
 
 
 TAGS = ["str_ascii", "str_empty", "str_nonascii", "str_newlines", "str_big", "bytes_plain", "bytes_empty", "bytes_all", "bytes_big",
-        "none", "int", "float", "nested", "obj", "bool", "frame0", "frame1", "frame_labels", "frame_named_index", "user_a", "user_b"]
+        "none", "int", "float", "nested", "obj", "bool", "frame0", "frame1", "frame_labels", "frame_named_index", "frame_odd_names", "user_a", "user_b"]
 
 
 def value(tag):
